@@ -31,7 +31,7 @@ def obligations(tier):
     obs.append(Ob("C01.val/size_n", "drv", "c_size", {"VF_SFORM": 0, "VF_MAXV": mv[3], "VF_UF": 1}, t, FN_ACT, f"(n): digit string of 1..{mv[3]} digits"))
     obs.append(Ob("C01.val/size_p_s", "drv", "c_size", {"VF_SFORM": 1, "VF_MAXV": mv[3], "VF_UF": 1}, t, FN_ACT, f"(p, s): digit strings of 1..{mv[3]} digits each"))
     obs += lex_obs("C01", "c_kw", ["col_later", "col_after_sized", "option_pos", "option_pos2", "after_not", "after_default"], tier, "lex")
-    obs += lex_obs("C01", "c_name", ["col_first", "col_later", "col_after_sized"], tier, "lexname")
+    obs += lex_obs("C01", "c_name", ["col_first", "col_later", "col_after_sized", "ref_list_first", "ref_list_later", "default_paren"], tier, "lexname")
     return obs
 
 
